@@ -535,6 +535,7 @@ func (s *SecureChannel) readChunk() (*MessageChunk, error) {
 		if opening == nil {
 			return nil, errors.Errorf("sechan: invalid state. openingInstance is nil.")
 		}
+		verifhook.Point("sc.recv.openingChecked")
 
 		s.cfg.SecurityPolicyURI = m.SecurityPolicyURI
 		if m.SecurityPolicyURI != ua.SecurityPolicyURINone {
